@@ -80,6 +80,14 @@ func (s *Session) call(fr *Frame, cc *ssa.CallCommon, st *State, instr *ssa.Call
 	if fr.top && fr.contract != nil && len(fr.contract.Interf) > 0 {
 		s.interfere(fr, cc, st, instr)
 	}
+	fr.curMode = ""
+	if fr.top && fr.contract != nil && len(fr.contract.Modes) > 0 && instr != nil {
+		if n := calleeName(cc); n != "" {
+			s.ensureCallSites(fr)
+			fr.curMode = fr.contract.Modes[fmt.Sprintf("%s#%d", n, fr.callSites[instr])]
+		}
+		defer func() { fr.curMode = "" }()
+	}
 	if fr.top && fr.contract != nil && len(fr.contract.Ats) > 0 {
 		s.callSiteAsserts(fr, cc, st, instr, nil)
 		res := s.call2(fr, cc, args, st, instr)
@@ -275,7 +283,7 @@ func (s *Session) pureCall(fn *ssa.Function, args []Val, st *State) Val {
 				if n, ok := s.knownLen(a); ok && len(els) == 1 {
 					arity += fmt.Sprintf("/%d", n)
 					for i := 0; i < n; i++ {
-						ev := s.load(st, &Loc{Kind: "A", TypeKey: typeKey(sl.Elem()), Ref: a.L[0], Idx: []T{Add(a.L[1], I(int64(i)))}, Typ: sl.Elem()})
+						ev := s.load(st, &Loc{Kind: "A", TypeKey: typeKey(sl.Elem()), Ref: a.L[0], Idx: []T{s.sidx(a.L[1], I(int64(i)))}, Typ: sl.Elem()})
 						in = append(in, ev.L...)
 					}
 					continue
@@ -446,7 +454,12 @@ func (s *Session) applyContract(fr *Frame, c *Contract, fn *ssa.Function, sig *t
 	ord := fr.callOrd[short]
 	pkgT := s.eng.typesPkg(c.Pkg)
 	se := &SpecEnv{sess: s, pkg: pkgT, vars: env, st: st, old: st}
+	mode := fr.curMode
+	fr.curMode = ""
 	for i, rq := range c.Requires {
+		if rq.Mode != "" && rq.Mode != mode {
+			continue
+		}
 		subs := splitClause(rq)
 		for _, sub := range subs {
 			f := s.evalBool(se, sub.E)
@@ -508,12 +521,28 @@ func (s *Session) applyContract(fr *Frame, c *Contract, fn *ssa.Function, sig *t
 		s.havocHeap(st, "X:evclock", arrSort(SInt))
 		s.havocHeap(st, "X:evlast", arrSort(SInt))
 		s.havocHeap(st, "X:evres", arrSort(SInt))
+		cnt0 := s.ghostGet(st, "evcount")
+		s.havocHeap(st, "X:evcount", arrSort(SInt))
+		cnt1 := s.ghostGet(st, "evcount")
 		clk1 := s.ghostGet(st, "evclock")
 		last1 := s.ghostGet(st, "evlast")
 		s.assume(Ge(Select(clk1, I(0)), Select(clk0, I(0))))
 		s.nfresh++
 		k := fmt.Sprintf("ek!%d", s.nfresh)
 		s.assume(T{fmt.Sprintf("(forall ((%s Int)) (! (and (>= (select %s %s) (select %s %s)) (<= (select %s %s) (select %s 0))) :pattern ((select %s %s))))", k, last1.S, k, last0.S, k, last1.S, k, clk1.S, last1.S, k), SBool})
+		// event kinds the callee cannot raise keep their position
+		{
+			s.nfresh++
+			k4 := fmt.Sprintf("ek!%d", s.nfresh)
+			excl := ""
+			for n := range s.eng.eventNames(fn, map[*ssa.Function]bool{}) {
+				excl += fmt.Sprintf(" (not (= %s %s))", k4, s.strLit(n).S)
+			}
+			s.assume(T{fmt.Sprintf("(forall ((%s Int)) (! (=> (and true%s) (= (select %s %s) (select %s %s))) :pattern ((select %s %s))))", k4, excl, last1.S, k4, last0.S, k4, last1.S, k4), SBool})
+		}
+		s.nfresh++
+		k3 := fmt.Sprintf("ek!%d", s.nfresh)
+		s.assume(T{fmt.Sprintf("(forall ((%s Int)) (! (and (>= (select %s %s) (select %s %s)) (=> (= (select %s %s) (select %s %s)) (= (select %s %s) (select %s %s)))) :pattern ((select %s %s))))", k3, cnt1.S, k3, cnt0.S, k3, last1.S, k3, last0.S, k3, cnt1.S, k3, cnt0.S, k3, cnt1.S, k3), SBool})
 		// an event kind that did not occur inside the callee keeps its recorded result
 		res0 := old.Heap["X:evres"]
 		if res0.S == "" {
@@ -543,6 +572,8 @@ func (s *Session) applyContract(fr *Frame, c *Contract, fn *ssa.Function, sig *t
 		now := Add(Select(clk, I(0)), I(1))
 		s.ghostSet(st, "evclock", Store(clk, I(0), now))
 		s.ghostSet(st, "evlast", Store(s.ghostGet(st, "evlast"), s.strLit(ev), now))
+		cnt := s.ghostGet(st, "evcount")
+		s.ghostSet(st, "evcount", Store(cnt, s.strLit(ev), Add(Select(cnt, s.strLit(ev)), I(1))))
 		if len(vals) == 1 && len(vals[0].L) == 1 && vals[0].L[0].Sort == SBool {
 			s.ghostSet(st, "evres", Store(s.ghostGet(st, "evres"), s.strLit(ev), Ite(vals[0].L[0], I(1), I(0))))
 		} else if len(vals) == 1 && len(vals[0].L) == 1 && vals[0].L[0].Sort == SInt {
@@ -551,6 +582,9 @@ func (s *Session) applyContract(fr *Frame, c *Contract, fn *ssa.Function, sig *t
 	}
 	se2 := &SpecEnv{sess: s, pkg: pkgT, vars: env, st: st, old: old}
 	for _, en := range c.Ensures {
+		if en.Mode != "" && en.Mode != mode {
+			continue
+		}
 		f := s.evalBool(se2, en.E)
 		s.assume(Imp(st.Reach, f))
 	}
@@ -633,6 +667,30 @@ func (s *Session) itemLocs(se *SpecEnv, item string) ([]modLoc, error) {
 	if strings.HasPrefix(item, "all ") {
 		// all T.field : the field of every object of struct type T
 		tf := strings.TrimSpace(strings.TrimPrefix(item, "all "))
+		if allFields {
+			// all T.* : every field of every object of struct type T
+			tt := s.resolveType(se.pkg, tf)
+			var out []modLoc
+			for _, l := range shape(tt) {
+				name := heapName("F", typeKey(tt), l.Path)
+				se.st.Sorts[name] = arrSort(l.Sort)
+				out = append(out, modLoc{heap: name, sort: arrSort(l.Sort), whole: true})
+			}
+			return out, nil
+		}
+		if strings.HasPrefix(tf, "map[") {
+			// all map[K]V : the contents of every map of that type
+			mt, ok := s.resolveMapType(se.pkg, tf)
+			if !ok {
+				return nil, fmt.Errorf("bad map type %q", tf)
+			}
+			domN, cardN, valN, valS, _ := s.mapHeaps(se.st, mt)
+			out := []modLoc{{heap: domN, sort: arrSort(arrSort(SBool)), whole: true}, {heap: cardN, sort: arrSort(SInt), whole: true}}
+			for i := range valN {
+				out = append(out, modLoc{heap: valN[i], sort: valS[i], whole: true})
+			}
+			return out, nil
+		}
 		i := strings.LastIndex(tf, ".")
 		if i < 0 {
 			return nil, fmt.Errorf("bad item %q", item)
@@ -1072,7 +1130,7 @@ func (s *Session) scanContractMods(c *Contract, fn *ssa.Function, sig *types.Sig
 		ptypes[names[k+i]] = sig.Params().At(i).Type()
 	}
 	if c.Options["event"] != "" {
-		for _, n := range []string{"evclock", "evlast", "evres"} {
+		for _, n := range []string{"evclock", "evlast", "evres", "evcount"} {
 			mods["X:"+n] = arrSort(SInt)
 		}
 		if s.scanEvents != nil {
@@ -1080,7 +1138,7 @@ func (s *Session) scanContractMods(c *Contract, fn *ssa.Function, sig *types.Sig
 		}
 	}
 	if fn != nil && s.scanEvents != nil && s.eng.mayEvent(fn, map[*ssa.Function]bool{}) {
-		for _, n := range []string{"evclock", "evlast", "evres"} {
+		for _, n := range []string{"evclock", "evlast", "evres", "evcount"} {
 			mods["X:"+n] = arrSort(SInt)
 		}
 		for n := range s.eng.eventNames(fn, map[*ssa.Function]bool{}) {
@@ -1295,6 +1353,11 @@ func (s *Session) callSiteAsserts(fr *Frame, cc *ssa.CallCommon, st *State, inst
 		}
 		for i := skip; i < len(cc.Args); i++ {
 			env2[fmt.Sprintf("arg%d", i-skip)] = s.valueOf(fr, cc.Args[i])
+		}
+		if skip == 1 {
+			env2["recv"] = s.valueOf(fr, cc.Args[0])
+		} else if cc.IsInvoke() {
+			env2["recv"] = s.valueOf(fr, cc.Value)
 		}
 		fr.env = env2
 		defer func() { fr.env = saved2 }()
@@ -1586,4 +1649,29 @@ func (e *Engine) eventNames(fn *ssa.Function, visiting map[*ssa.Function]bool) m
 		}
 	}
 	return out
+}
+
+// resolveMapType parses "map[K]V" with K, V resolvable type names.
+func (s *Session) resolveMapType(pkg *types.Package, name string) (*types.Map, bool) {
+	if !strings.HasPrefix(name, "map[") {
+		return nil, false
+	}
+	depth := 0
+	for i := 3; i < len(name); i++ {
+		switch name[i] {
+		case '[':
+			depth++
+		case ']':
+			depth--
+			if depth == 0 {
+				k := s.resolveType(pkg, name[4:i])
+				v := s.resolveType(pkg, name[i+1:])
+				if k == nil || v == nil {
+					return nil, false
+				}
+				return types.NewMap(k, v), true
+			}
+		}
+	}
+	return nil, false
 }
